@@ -55,6 +55,7 @@ class Ctx:
         self.speculative = False              # evaluating proof hints: divisions assert nothing
         self.lookup_only = False              # lazy hints may only re-use existing sqrt symbols
         self.ufnum = {}                       # numeric meaning of uninterpreted functions (engine validation)
+        self.hyp_main = {}                    # z3 ast id of a hypothesis -> name of the symbol it defines
         self.probe_env = None
         self.nosplit = False
         self.notes = []
@@ -1067,24 +1068,51 @@ def eval_hint(c, h):
         c.speculative, c.lookup_only = saved
 
 
-def _quick_differs(c, p):
-    """cheap numeric pre-filter: True if polynomial p is clearly non-zero at a probe point that
-    satisfies the current path condition (used only to skip hopeless proof hints)"""
+def probe_point(c):
+    """a completed numeric environment satisfying the current path condition (cached), or None"""
     envs = c.probe_env
     if not envs:
-        return False
+        return None
     if isinstance(envs, dict):
         envs = [envs]
+    key = (len(c.order), len(c.pc))
+    cached = getattr(c, '_probe_cache', None)
+    if cached is not None and cached[0] == key:
+        return cached[1]
+    found = None
     for env0 in envs:
         try:
             env = complete_env(c, env0)
-            if not all(numeval(f, env) for f in c.pc):
-                continue
-            v = numeval(p, env)
-            return abs(v) > 1e-6
+            if all(numeval(f, env) for f in c.pc):
+                found = env
+                break
         except Exception:
             continue
-    return False
+    c._probe_cache = (key, found)
+    return found
+
+
+def probe_value(c, r):
+    """numeric value of a symbolic real at the probe point, or None"""
+    env = probe_point(c)
+    if env is None:
+        return None
+    try:
+        return float(numeval(lift(r).z, env))
+    except Exception:
+        return None
+
+
+def _quick_differs(c, p):
+    """cheap numeric pre-filter: True if polynomial p is clearly non-zero at a probe point that
+    satisfies the current path condition (used only to skip hopeless proof hints)"""
+    env = probe_point(c)
+    if env is None:
+        return False
+    try:
+        return abs(numeval(p, env)) > 1e-6
+    except Exception:
+        return False
 
 
 def sqrt(x, nonneg_known=False):
